@@ -124,38 +124,66 @@ theorem blankFields_erase : (subs : List Schema) → ∀ (pid pid' : Nat) (b : B
       rw [blank_erase f (some pid) (some pid') f.key n n', blankFields_erase fs pid pid' b _ _]
 end
 
-theorem attachAll_erase (es : List Node) : ∀ (es' : List Node) (lst lst' : Node) (n n' : Nat),
-    erase lst = erase lst' → eraseL es = eraseL es' →
-    erase (attachAll lst es n).1 = erase (attachAll lst' es' n').1 := by
+theorem attachAll_ni (es : List Node) : ∀ (lst : Node) (n : Nat),
+    (attachAll lst es n).1.ni = lst.ni ∧ (attachAll lst es n).1.sch = lst.sch := by
+  induction es with
+  | nil => intro lst n; exact ⟨rfl, rfl⟩
+  | cons e es ih =>
+    intro lst n
+    rw [attachAll]
+    split
+    · have := ih (lst.withKids (lst.kids ++ [mkSlot n lst.id lst.kids.length e])) (n + 1)
+      exact this
+    · have := ih (lst.withKids (lst.kids ++ [e.withParent (some lst.id)])) n
+      exact this
+
+theorem attachAll_kids (es : List Node) : ∀ (es' : List Node) (lst lst' : Node) (n n' : Nat),
+    lst.sch = lst'.sch → eraseL lst.kids = eraseL lst'.kids → eraseL es = eraseL es' →
+    eraseL (attachAll lst es n).1.kids = eraseL (attachAll lst' es' n').1.kids := by
   induction es with
   | nil =>
-    intro es' lst lst' n n' hl he
+    intro es' lst lst' n n' _ hl he
     cases es' with
     | nil => exact hl
     | cons _ _ => simp at he
   | cons e es ih =>
-    intro es' lst lst' n n' hl he
+    intro es' lst lst' n n' hs hl he
     cases es' with
     | nil => simp at he
     | cons e' es' =>
       simp only [eraseL_cons, List.cons.injEq] at he
-      have hkind : lst.kind = lst'.kind := by unfold Node.kind; rw [erase_sch hl]
-      have hlen : lst.kids.length = lst'.kids.length := eraseL_length (erase_kids hl)
+      have hkind : lst.kind = lst'.kind := by unfold Node.kind; rw [hs]
+      have hlen : lst.kids.length = lst'.kids.length := eraseL_length hl
       rw [attachAll, attachAll]
       by_cases hk : lst.kind = .list
       · have hk' : lst'.kind = .list := hkind ▸ hk
         simp only [hk, hk', if_true]
-        apply ih _ _ _ _ _ _ he.2
-        apply erase_withKids hl
-        rw [eraseL_append, eraseL_append, erase_kids hl, hlen]
+        apply ih _ _ _ _ _ (by cases lst; cases lst'; exact hs) _ he.2
+        cases lst; cases lst'
+        simp only [Node.withKids, Node.kids] at hl hlen ⊢
+        rw [eraseL_append, eraseL_append, hl, hlen]
         simp only [eraseL_cons, eraseL_nil]
-        rw [erase_mkSlot n n' lst.id lst'.id _ he.1]
+        rw [erase_mkSlot n n' _ _ _ he.1]
       · have hk' : ¬ lst'.kind = .list := hkind ▸ hk
         simp only [hk, hk', if_false]
-        apply ih _ _ _ _ _ _ he.2
-        apply erase_withKids hl
-        rw [eraseL_append, eraseL_append, erase_kids hl]
+        apply ih _ _ _ _ _ (by cases lst; cases lst'; exact hs) _ he.2
+        cases lst; cases lst'
+        simp only [Node.withKids, Node.kids] at hl ⊢
+        rw [eraseL_append, eraseL_append, hl]
         simp only [eraseL_cons, eraseL_nil, erase_withParent, he.1]
+
+theorem node_eta (n : Node) : n = .mk n.ni n.sch n.kids := by cases n; rfl
+
+theorem attachAll_erase (es es' : List Node) (lst lst' : Node) (n n' : Nat)
+    (hl : erase lst = erase lst') (he : eraseL es = eraseL es') :
+    erase (attachAll lst es n).1 = erase (attachAll lst' es' n').1 := by
+  have hk := attachAll_kids es es' lst lst' n n' (erase_sch hl) (erase_kids hl) he
+  have h1 := attachAll_ni es lst n
+  have h2 := attachAll_ni es' lst' n'
+  rw [node_eta (attachAll lst es n).1, node_eta (attachAll lst' es' n').1, h1.1, h1.2, h2.1, h2.2]
+  cases lst; cases lst'
+  obtain ⟨a, b, c, d, _⟩ := (erase_eq_iff _ _ _ _ _ _).mp hl
+  exact (erase_eq_iff _ _ _ _ _ _).mpr ⟨a, b, c, d, hk⟩
 
 theorem erase_key_eq (c : Node) : (erase c).key = c.key := by cases c; rfl
 
@@ -347,34 +375,68 @@ theorem resetL_erase (s : Schema) (id id' n n' : Nat) :
     · exact blankFields_erase _ _ _ _ _ _
     · rfl
 
-theorem mapSetKvs_indep (i i' : NInfo) (s : Schema) (kvs : List (Str × Raw)) (h : ∀ p ∈ kvs, SetIndep p.2)
-    (pol : Option Policy) (n n' : Nat) (hk : i.key = i'.key) (hv : i.val = i'.val) (hu : i.u = i'.u) :
-    erase (mapSetKvs i s kvs pol n).node = erase (mapSetKvs i' s kvs pol n').node ∧
+theorem mapSetKvs_ni (i : NInfo) (s : Schema) (kvs : List (Str × Raw)) (pol : Option Policy) (n : Nat) :
+    (mapSetKvs i s kvs pol n).node.ni = i ∧ (mapSetKvs i s kvs pol n).node.sch = s := by
+  unfold mapSetKvs dictPrep
+  dsimp only
+  cases policyCheck (pol.getD s.info.policy) s.subs kvs <;> exact ⟨rfl, rfl⟩
+
+/-- the children `Dict.set` leaves depend on nothing but the class, the pairs and the policy -/
+theorem mapSetKvs_kids (i i' : NInfo) (s : Schema) (kvs : List (Str × Raw)) (h : ∀ p ∈ kvs, SetIndep p.2)
+    (pol : Option Policy) (n n' : Nat) :
+    eraseL (mapSetKvs i s kvs pol n).node.kids = eraseL (mapSetKvs i' s kvs pol n').node.kids ∧
     (mapSetKvs i s kvs pol n).res = (mapSetKvs i' s kvs pol n').res := by
   unfold mapSetKvs dictPrep
   dsimp only
   have hr := resetL_erase s i.id i'.id n n'
   cases policyCheck (pol.getD s.info.policy) s.subs kvs with
-  | error e =>
-    dsimp only
-    exact ⟨(erase_eq_iff _ _ _ _ _ _).mpr ⟨hk, hv, hu, rfl, hr⟩, rfl⟩
+  | error e => exact ⟨hr, rfl⟩
   | ok u =>
     dsimp only
-    have := setPairs_indep s.subs kvs h i.id i'.id _ _
+    exact setPairs_indep s.subs kvs h i.id i'.id _ _
       (if s.kind = .dict then blankFields s.subs i.id false n
         else if s.info.minreq then blankFields s.subs i.id true n else ([], n)).2
       (if s.kind = .dict then blankFields s.subs i'.id false n'
         else if s.info.minreq then blankFields s.subs i'.id true n' else ([], n')).2 hr
-    exact ⟨(erase_eq_iff _ _ _ _ _ _).mpr ⟨hk, hv, hu, rfl, this.1⟩, this.2⟩
 
-theorem seqSet_indep (i i' : NInfo) (s : Schema) (raw : Raw) (h : ∀ xs, raw = .list xs → ∀ x ∈ xs, SetIndep x)
-    (n n' : Nat) (hk : i.key = i'.key) (hv : i.val = i'.val) (hu : i.u = i'.u) :
-    erase (seqSet i s raw n).node = erase (seqSet i' s raw n').node ∧
-    (seqSet i s raw n).res = (seqSet i' s raw n').res := by
-  have hempty : erase (.mk i s []) = erase (.mk i' s []) := (erase_eq_iff _ _ _ _ _ _).mpr ⟨hk, hv, hu, rfl, rfl⟩
+theorem mapSetKvs_indep (i i' : NInfo) (s : Schema) (kvs : List (Str × Raw)) (h : ∀ p ∈ kvs, SetIndep p.2)
+    (pol : Option Policy) (n n' : Nat) (hk : i.key = i'.key) (hv : i.val = i'.val) (hu : i.u = i'.u) :
+    erase (mapSetKvs i s kvs pol n).node = erase (mapSetKvs i' s kvs pol n').node ∧
+    (mapSetKvs i s kvs pol n).res = (mapSetKvs i' s kvs pol n').res := by
+  have hkk := mapSetKvs_kids i i' s kvs h pol n n'
+  have h1 := mapSetKvs_ni i s kvs pol n
+  have h2 := mapSetKvs_ni i' s kvs pol n'
+  refine ⟨?_, hkk.2⟩
+  rw [node_eta (mapSetKvs i s kvs pol n).node, node_eta (mapSetKvs i' s kvs pol n').node, h1.1, h1.2, h2.1, h2.2]
+  exact (erase_eq_iff _ _ _ _ _ _).mpr ⟨hk, hv, hu, rfl, hkk.1⟩
+
+theorem seqSet_ni (i : NInfo) (s : Schema) (raw : Raw) (n : Nat) :
+    (seqSet i s raw n).node.ni = i ∧ (seqSet i s raw n).node.sch = s := by
   unfold seqSet
   cases s.member with
-  | none => exact ⟨hempty, rfl⟩
+  | none => exact ⟨rfl, rfl⟩
+  | some m =>
+    dsimp only
+    cases raw with
+    | list xs =>
+      dsimp only
+      cases (buildItems m xs n).2.2 with
+      | ok conv => exact attachAll_ni _ _ _
+      | error e => cases e <;> exact ⟨rfl, rfl⟩
+    | none => exact ⟨rfl, rfl⟩
+    | int _ => exact ⟨rfl, rfl⟩
+    | str _ => exact ⟨rfl, rfl⟩
+    | dict _ => exact ⟨rfl, rfl⟩
+    | pairs _ => exact ⟨rfl, rfl⟩
+
+/-- the items `Sequence.set` leaves depend on nothing but the class and the value -/
+theorem seqSet_kids (i i' : NInfo) (s : Schema) (raw : Raw) (h : ∀ xs, raw = .list xs → ∀ x ∈ xs, SetIndep x)
+    (n n' : Nat) :
+    eraseL (seqSet i s raw n).node.kids = eraseL (seqSet i' s raw n').node.kids ∧
+    (seqSet i s raw n).res = (seqSet i' s raw n').res := by
+  unfold seqSet
+  cases s.member with
+  | none => exact ⟨rfl, rfl⟩
   | some m =>
     dsimp only
     cases raw with
@@ -383,13 +445,24 @@ theorem seqSet_indep (i i' : NInfo) (s : Schema) (raw : Raw) (h : ∀ xs, raw = 
       dsimp only
       rw [← hb.2]
       cases (buildItems m xs n).2.2 with
-      | ok conv => exact ⟨attachAll_erase _ _ _ _ _ _ hempty hb.1, rfl⟩
-      | error e => cases e <;> exact ⟨hempty, rfl⟩
-    | none => exact ⟨hempty, rfl⟩
-    | int _ => exact ⟨hempty, rfl⟩
-    | str _ => exact ⟨hempty, rfl⟩
-    | dict _ => exact ⟨hempty, rfl⟩
-    | pairs _ => exact ⟨hempty, rfl⟩
+      | ok conv => exact ⟨attachAll_kids _ _ _ _ _ _ rfl rfl hb.1, rfl⟩
+      | error e => cases e <;> exact ⟨rfl, rfl⟩
+    | none => exact ⟨rfl, rfl⟩
+    | int _ => exact ⟨rfl, rfl⟩
+    | str _ => exact ⟨rfl, rfl⟩
+    | dict _ => exact ⟨rfl, rfl⟩
+    | pairs _ => exact ⟨rfl, rfl⟩
+
+theorem seqSet_indep (i i' : NInfo) (s : Schema) (raw : Raw) (h : ∀ xs, raw = .list xs → ∀ x ∈ xs, SetIndep x)
+    (n n' : Nat) (hk : i.key = i'.key) (hv : i.val = i'.val) (hu : i.u = i'.u) :
+    erase (seqSet i s raw n).node = erase (seqSet i' s raw n').node ∧
+    (seqSet i s raw n).res = (seqSet i' s raw n').res := by
+  have hkk := seqSet_kids i i' s raw h n n'
+  have h1 := seqSet_ni i s raw n
+  have h2 := seqSet_ni i' s raw n'
+  refine ⟨?_, hkk.2⟩
+  rw [node_eta (seqSet i s raw n).node, node_eta (seqSet i' s raw n').node, h1.1, h1.2, h2.1, h2.2]
+  exact (erase_eq_iff _ _ _ _ _ _).mpr ⟨hk, hv, hu, rfl, hkk.1⟩
 
 theorem setIndep_core (raw : Raw) (hl : ∀ xs, raw = .list xs → ∀ x ∈ xs, SetIndep x)
     (hd : ∀ kvs, toPairs raw = some (some kvs) → ∀ p ∈ kvs, SetIndep p.2) : SetIndep raw := by
@@ -490,6 +563,194 @@ theorem setNode_indep : (raw : Raw) → SetIndep raw
         have := sizeOf_snd_lt_of_mem hp
         exact setNode_indep p.2)
 termination_by raw => sizeOf raw
+decreasing_by
+  all_goals simp_wf
+  all_goals omega
+
+/-! ### `from_defaults()` does not look at ids / parents either -/
+
+def FDIndep (s : Schema) : Prop :=
+  ∀ (p p' : Option Nat) (k : Str) (n n' : Nat),
+    erase (fromDefaults s p k n).node = erase (fromDefaults s p' k n').node ∧
+    (fromDefaults s p k n).res = (fromDefaults s p' k n').res
+
+theorem defaultSlotsWith_indep (mk mk' : Nat → SetR)
+    (h : ∀ nx nx', erase (mk nx).node = erase (mk' nx').node ∧ (mk nx).res = (mk' nx').res)
+    (lst lst' : Nat) (k : Nat) : ∀ (idx n n' : Nat),
+    eraseL (defaultSlotsWith mk lst k idx n).1 = eraseL (defaultSlotsWith mk' lst' k idx n').1 ∧
+    (defaultSlotsWith mk lst k idx n).2.2 = (defaultSlotsWith mk' lst' k idx n').2.2 := by
+  induction k with
+  | zero => intro idx n n'; exact ⟨rfl, rfl⟩
+  | succ k ih =>
+    intro idx n n'
+    have hm := h (n + 1) (n' + 1)
+    rw [defaultSlotsWith, defaultSlotsWith]
+    dsimp only
+    rw [← hm.2]
+    cases (mk (n + 1)).res with
+    | error e =>
+      dsimp only
+      rw [eraseL_cons, eraseL_cons, erase_mkSlot n n' lst lst' idx hm.1]
+      exact ⟨rfl, rfl⟩
+    | ok b =>
+      dsimp only
+      have := ih (idx + 1) (mk (n + 1)).next (mk' (n' + 1)).next
+      rw [eraseL_cons, eraseL_cons, erase_mkSlot n n' lst lst' idx hm.1, this.1]
+      exact ⟨rfl, this.2⟩
+
+theorem defaultFields_indep (fs : List Schema) (h : ∀ f ∈ fs, FDIndep f) : ∀ (pid pid' : Nat) (b : Bool) (n n' : Nat),
+    eraseL (defaultFields fs pid b n).1 = eraseL (defaultFields fs pid' b n').1 ∧
+    (defaultFields fs pid b n).2.2 = (defaultFields fs pid' b n').2.2 := by
+  induction fs with
+  | nil => intro _ _ _ _ _; exact ⟨rfl, rfl⟩
+  | cons f fs ih =>
+    intro pid pid' b n n'
+    have ih' := ih (fun g hg => h g (by simp [hg]))
+    have hf := h f (by simp) (some pid) (some pid') f.key n n'
+    rw [defaultFields, defaultFields]
+    split
+    · exact ih' pid pid' b n n'
+    · dsimp only
+      rw [← hf.2]
+      cases (fromDefaults f (some pid) f.key n).res with
+      | error e =>
+        dsimp only
+        cases b with
+        | true =>
+          simp only [if_true, eraseL_cons]
+          rw [blank_erase f (some pid) (some pid') f.key _ (fromDefaults f (some pid') f.key n').next,
+            blankFields_erase fs pid pid' true _
+              (blank f (some pid') f.key (fromDefaults f (some pid') f.key n').next).2]
+          exact ⟨rfl, trivial⟩
+        | false =>
+          simp only [Bool.false_eq_true, if_false, eraseL_cons]
+          rw [hf.1, blankFields_erase fs pid pid' false _ (fromDefaults f (some pid') f.key n').next]
+          exact ⟨rfl, trivial⟩
+      | ok c =>
+        dsimp only
+        have := ih' pid pid' b (fromDefaults f (some pid) f.key n).next (fromDefaults f (some pid') f.key n').next
+        rw [eraseL_cons, eraseL_cons, hf.1, this.1]
+        exact ⟨rfl, this.2⟩
+
+theorem blank_ni (s : Schema) (p : Option Nat) (k : Str) (n : Nat) :
+    (blank s p k n).1.ni = { id := n, parent := p, key := k } ∧ (blank s p k n).1.sch = s := by
+  cases s with
+  | mk info dflt subs =>
+    rw [blank]
+    cases info.kind <;> dsimp only <;> first | exact ⟨rfl, rfl⟩ | (split <;> exact ⟨rfl, rfl⟩)
+
+theorem fd_core (info : SInfo) (dflt : Raw) (subs : List Schema) (hsubs : ∀ f ∈ subs, FDIndep f) :
+    FDIndep (.mk info dflt subs) := by
+  intro p p' k n n'
+  have hb := blank_erase (.mk info dflt subs) p p' k n n'
+  have hset : ∀ d, erase (setNode (blank (.mk info dflt subs) p k n).1 d none (blank (.mk info dflt subs) p k n).2).node =
+      erase (setNode (blank (.mk info dflt subs) p' k n').1 d none (blank (.mk info dflt subs) p' k n').2).node ∧
+      (setNode (blank (.mk info dflt subs) p k n).1 d none (blank (.mk info dflt subs) p k n).2).res =
+      (setNode (blank (.mk info dflt subs) p' k n').1 d none (blank (.mk info dflt subs) p' k n').2).res :=
+    fun d => setNode_indep d _ _ none _ _ hb
+  have hwk : ∀ ks ks' : List Node, eraseL ks = eraseL ks' →
+      erase ((blank (.mk info dflt subs) p k n).1.withKids ks) = erase ((blank (.mk info dflt subs) p' k n').1.withKids ks') :=
+    fun ks ks' h => erase_withKids hb h
+  unfold fromDefaults
+  dsimp only
+  cases hkind : info.kind with
+  | integer => exact hset dflt
+  | string => exact hset dflt
+  | slot => exact ⟨hb, rfl⟩
+  | list =>
+    dsimp only
+    cases dflt with
+    | none => exact ⟨hb, rfl⟩
+    | int c =>
+      dsimp only
+      cases subs with
+      | nil => exact ⟨hb, rfl⟩
+      | cons m rest =>
+        dsimp only
+        have := defaultSlotsWith_indep (fun nx => fromDefaults m none [] nx) (fun nx => fromDefaults m none [] nx)
+          (fun nx nx' => hsubs m (by simp) none none [] nx nx')
+          (blank (.mk info (.int c) (m :: rest)) p k n).1.id (blank (.mk info (.int c) (m :: rest)) p' k n').1.id
+          c.toNat 0 (blank (.mk info (.int c) (m :: rest)) p k n).2 (blank (.mk info (.int c) (m :: rest)) p' k n').2
+        exact ⟨hwk _ _ this.1, this.2⟩
+    | str _ => exact hset _
+    | list _ => exact hset _
+    | dict _ => exact hset _
+    | pairs _ => exact hset _
+  | array =>
+    dsimp only
+    cases dflt with
+    | none => exact ⟨hb, rfl⟩
+    | list xs =>
+      dsimp only
+      cases subs with
+      | nil => exact ⟨hb, rfl⟩
+      | cons m rest =>
+        dsimp only
+        have hbi := buildItems_indep m xs (fun x _ => setNode_indep x)
+          (blank (.mk info (.list xs) (m :: rest)) p k n).2 (blank (.mk info (.list xs) (m :: rest)) p' k n').2
+        rw [← hbi.2]
+        cases (buildItems m xs (blank (.mk info (.list xs) (m :: rest)) p k n).2).2.2 with
+        | ok _ => exact ⟨attachAll_erase _ _ _ _ _ _ hb hbi.1, rfl⟩
+        | error _ => exact ⟨hb, rfl⟩
+    | int _ => exact ⟨hb, rfl⟩
+    | str _ => exact ⟨hb, rfl⟩
+    | dict _ => exact ⟨hb, rfl⟩
+    | pairs _ => exact ⟨hb, rfl⟩
+  | multi =>
+    dsimp only
+    cases dflt with
+    | none => exact ⟨hb, rfl⟩
+    | list xs =>
+      dsimp only
+      cases subs with
+      | nil => exact ⟨hb, rfl⟩
+      | cons m rest =>
+        dsimp only
+        have hbi := buildItems_indep m xs (fun x _ => setNode_indep x)
+          (blank (.mk info (.list xs) (m :: rest)) p k n).2 (blank (.mk info (.list xs) (m :: rest)) p' k n').2
+        rw [← hbi.2]
+        cases (buildItems m xs (blank (.mk info (.list xs) (m :: rest)) p k n).2).2.2 with
+        | ok _ => exact ⟨attachAll_erase _ _ _ _ _ _ hb hbi.1, rfl⟩
+        | error _ => exact ⟨hb, rfl⟩
+    | int _ => exact ⟨hb, rfl⟩
+    | str _ => exact ⟨hb, rfl⟩
+    | dict _ => exact ⟨hb, rfl⟩
+    | pairs _ => exact ⟨hb, rfl⟩
+  | dict =>
+    dsimp only
+    cases dflt with
+    | none =>
+      dsimp only
+      have := defaultFields_indep subs hsubs (blank (.mk info .none subs) p k n).1.id (blank (.mk info .none subs) p' k n').1.id
+        false (blank (.mk info .none subs) p k n).2 (blank (.mk info .none subs) p' k n').2
+      exact ⟨hwk _ _ this.1, this.2⟩
+    | int _ => exact hset _
+    | str _ => exact hset _
+    | list _ => exact hset _
+    | dict _ => exact hset _
+    | pairs _ => exact hset _
+  | sparse =>
+    dsimp only
+    cases dflt with
+    | none =>
+      dsimp only
+      split
+      · have := defaultFields_indep subs hsubs (blank (.mk info .none subs) p k n).1.id (blank (.mk info .none subs) p' k n').1.id
+          true (blank (.mk info .none subs) p k n).2 (blank (.mk info .none subs) p' k n').2
+        exact ⟨hwk _ _ this.1, this.2⟩
+      · exact ⟨hwk [] [] rfl, rfl⟩
+    | int _ => exact hset _
+    | str _ => exact hset _
+    | list _ => exact hset _
+    | dict _ => exact hset _
+    | pairs _ => exact hset _
+
+/-- **`from_defaults()` is blind to ids and stored parents.** -/
+theorem fromDefaults_indep : (s : Schema) → FDIndep s
+  | .mk info dflt subs => fd_core info dflt subs (fun f hf => by
+      have := List.sizeOf_lt_of_mem hf
+      exact fromDefaults_indep f)
+termination_by s => sizeOf s
 decreasing_by
   all_goals simp_wf
   all_goals omega
